@@ -1,6 +1,7 @@
 import CookModel.Side.Builder
 import CookModel.Lemmas.BuilderFinish
 import CookModel.Lemmas.BuilderLayers
+import CookModel.Lemmas.BuilderDeclared
 /-
   C16  Converters built from configuration layers are consistent or rejected.
 
@@ -99,6 +100,48 @@ theorem C16_best_sorted (files : List (UnitsFile Rat)) (conv : Converter Rat) (h
   · rcases hl with rfl | rfl
     · exact hfin _ hspec.1
     · exact hfin _ hspec.2
+
+/-- SI-prefixed forms.  The units the layers declare are the first units of the converter, in declaration order
+    (`declared files`).  For every declared unit marked `expand_si` the converter holds, for each of the six prefixes,
+    one generated unit (distinct ids `m p`) whose names and symbols are EXACTLY the prefixed forms of that unit's final
+    names and symbols under the final prefix tables (all layers joined by precedence, `b.si`), with the ratio scaled by
+    the prefix and the same difference, quantity and system — also after extend blocks renamed the unit — and every
+    prefixed form resolves to exactly that generated unit. -/
+theorem C16_si_forms {α : Type} [Arith α] (files : List (UnitsFile α)) (conv : Converter α) (h : build files = .ok conv) :
+    ∃ b c, buildCore files = .ok (b, c) ∧ conv.units = c.units.map (·.unit) ∧
+      ∀ (i : Nat) (x : UnitB α), (declared files)[i]? = some x → x.expandSi = true →
+        ∃ (u : UnitB α) (m : SIPrefix → Nat) (pfx sym : SIPrefix → List Key),
+          c.units[i]? = some u ∧ u.expanded = some m ∧ (∀ p q, m p = m q → p = q) ∧
+          b.si.prefixes = some pfx ∧ b.si.symbolPrefixes = some sym ∧
+          ∀ p, ∃ ch : Bld.Unit α, conv.units[m p]? = some ch ∧
+            ch.names = prefixed (pfx p) u.unit.names ∧ ch.symbols = prefixed (sym p) u.unit.symbols ∧
+            ch.ratio = Arith.mul u.unit.ratio (prefixRatio p) ∧ ch.difference = u.unit.difference ∧
+            ch.quantity = u.unit.quantity ∧ ch.system = u.unit.system ∧
+            ∀ k, k ∈ ch.names ++ ch.symbols → idxGet conv.index k = some (m p) := by
+  obtain ⟨b, c, hbc, _, hp⟩ := (build_good files).of_ok h
+  obtain ⟨hflags, hsi, hready⟩ := buildCore_declared files b c hbc
+  refine ⟨b, c, hbc, hp.units, ?_⟩
+  intro i x hx hex
+  obtain ⟨u, hu, he, _⟩ := hflags i x hx
+  obtain ⟨m, hm⟩ := Option.isSome_iff_exists.mp (hready.2 i u hu (by rw [he]; exact hex))
+  obtain ⟨pfx, sym, hp1, hp2, hk⟩ := hsi.forms i u m hu hm
+  refine ⟨u, m, pfx, sym, hu, hm, hready.1.struct.inj i u m hu hm, hp1, hp2, ?_⟩
+  intro p
+  obtain ⟨ch, hch, heq⟩ := hk p
+  refine ⟨ch.unit, by rw [hp.units, List.getElem?_map, hch]; rfl, ?_, ?_, ?_, ?_, ?_, ?_, ?_⟩
+  · rw [heq]; rfl
+  · rw [heq]; rfl
+  · rw [heq]; rfl
+  · rw [heq]; rfl
+  · rw [heq]; rfl
+  · rw [heq]; rfl
+  · intro k hk
+    rw [hp.index]
+    refine hready.1.complete (m p) ch (by simp) hch k ?_
+    unfold Unit.keys
+    rcases List.mem_append.mp hk with h1 | h1
+    · exact List.mem_append_left _ (List.mem_append_left _ h1)
+    · exact List.mem_append_left _ (List.mem_append_right _ h1)
 
 /-! ### Precedence -/
 
